@@ -61,10 +61,12 @@ func (p *Protocol) downloadBlock(height int64, tasks tasks, tasksMu ...*sync.Mut
 		}
 	}
 
+	verifDlGate(p, "sort", height, tasks, nil, nil)
 	lockTasks()
 	tasks.Sort()
 	unlockTasks()
 ReDownload:
+	verifDlGate(p, "pick", height, tasks, nil, nil)
 	select {
 	case <-p.Ctx.Done():
 		log.Warn("downloadBlock", "process", "done")
@@ -86,16 +88,22 @@ ReDownload:
 	task := p.availbTask(tasks, height)
 	unlockTasks()
 	if task == nil {
+		if verifDlNoSleep(p) {
+			goto ReDownload
+		}
 		time.Sleep(time.Millisecond * 400)
 		goto ReDownload
 	}
 
 	var downloadStart = time.Now()
 	//一个高度在一个pid上请求。
+	verifDlGate(p, "ask", height, tasks, task, nil)
 	block, err := p.downloadBlockFromPeerOld(height, task.Pid)
+	verifDlGate(p, "reply", height, tasks, task, err)
 	if err != nil {
 		log.Error("handleEventDownloadBlock", "SendRecvPeer", err, "pid", task.Pid)
 		p.releaseJob(task)
+		verifDlGate(p, "remove", height, tasks, task, nil)
 		lockTasks()
 		tasks = tasks.Remove(task)
 		unlockTasks()
@@ -141,6 +149,7 @@ func (p *Protocol) downloadBlockFromPeer(height int64, pid peer.ID) (*types.Bloc
 
 func (p *Protocol) downloadBlockFromPeerOld(height int64, pid peer.ID) (*types.Block, error) {
 	ctx, cancel := context.WithTimeout(p.Ctx, time.Second*10)
+	ctx, cancel = verifDlCtx(p, ctx, cancel, height, pid)
 	defer cancel()
 	p.Host.ConnManager().Protect(pid, downloadBlockOld)
 	defer p.Host.ConnManager().Unprotect(pid, downloadBlockOld)
